@@ -154,6 +154,23 @@ func c13Case(w *rt.W, s uint64) {
 		{"MarshalText-or-String", plain, func() string { return sz.String() }},
 		{"PrettyString-again", pretty, func() string { return sz.PrettyString() }},
 	}
+	bufCall := func(prefix string, spare int, flag size.Format) func() string {
+		return func() string {
+			b := append(make([]byte, 0, len(prefix)+spare), prefix...)
+			o, err := size.DefaultFormatter(b, sz, flag)
+			if err != nil {
+				return "error: " + err.Error()
+			}
+			return string(o)
+		}
+	}
+	sp := int(s % 73)
+	calls = append(calls,
+		rcall{fmt.Sprintf("DefaultFormatter(spare %d, FormatPretty|FormatHTML)", sp), html, bufCall("", sp, size.FormatPretty|size.FormatHTML)},
+		rcall{fmt.Sprintf("DefaultFormatter(\"disk2\" spare %d, FormatPretty)", (sp*7)%61), "disk2" + pretty, bufCall("disk2", (sp*7)%61, size.FormatPretty)},
+		rcall{fmt.Sprintf("DefaultFormatter(\"n=19\" spare %d, 0)", (sp*3)%40), "n=19" + plain, bufCall("n=19", (sp*3)%40, 0)},
+		rcall{"Formatter variable (FormatPretty)", pretty, func() string { o, _ := size.Formatter(nil, sz, size.FormatPretty); return string(o) }},
+	)
 	h := rt.HashU(s, 13)
 	for i := len(calls) - 1; i > 0; i-- {
 		j := int(h % uint64(i+1))
